@@ -51,6 +51,7 @@ func vfCorpus() [][]byte {
 	for _, tc := range testcases {
 		out = append(out, []byte(tc.data))
 	}
+	out = append(out, vfDirectedAll()...)
 	if ents, err := os.ReadDir("testdata"); err == nil {
 		for _, e := range ents {
 			if b, err := os.ReadFile("testdata/" + e.Name()); err == nil {
@@ -135,6 +136,7 @@ func (g *vfGen) genCorpus() {
 func (g *vfGen) genDets() {
 	fx := vfLoadFacts()
 	corpus := vfCorpus()
+	directed := vfDirected()
 	for _, name := range vfDetNames() {
 		var seeds [][]byte
 		for _, s := range fx.Signatures[name] {
@@ -156,6 +158,30 @@ func (g *vfGen) genDets() {
 			}
 		}
 		seeds = append(seeds, []byte{}, g.bytes(8), g.bytes(64))
+		seeds = append(seeds, directed[name]...)
+		// compound files carrying each 16-byte literal of the check as the root CLSID (v3 and v4 sectors)
+		for _, lh := range fx.Signatures[name] {
+			lit, _ := hex.DecodeString(lh)
+			if len(lit) != 16 {
+				continue
+			}
+			for _, v4 := range []bool{false, true} {
+				for _, sec := range []int{0, 1, 3} {
+					sl := 512
+					if v4 {
+						sl = 4096
+					}
+					off := sl*(1+sec) + 80
+					f := vfPad([]byte{0xD0, 0xCF, 0x11, 0xE0, 0xA1, 0xB1, 0x1A, 0xE1}, off+17)
+					if v4 {
+						f[26] = 4
+					}
+					f[48] = byte(sec)
+					copy(f[off:], lit)
+					seeds = append(seeds, f, f[:off+16])
+				}
+			}
+		}
 		lits := fx.Literals[name]
 		for _, s := range seeds {
 			// every cut length of short seeds; boundary lengths around literals for long ones
